@@ -286,6 +286,10 @@ type World struct {
 	hold     func(f *Flight) bool
 	dir      *director
 	recovering bool
+	timeUp     bool
+	live       []*liveHeight
+	liveAbstain bool
+	stableBudget, stableStart, byzSteps int
 	yieldAll bool
 	yieldN   int
 	yields   []*yieldRec
